@@ -3,16 +3,18 @@ use crate::core::Driver;
 
 pub mod c04;
 pub mod c05;
+pub mod c11;
 pub mod c15;
 pub mod lefgen;
 pub mod toy;
 
-pub const ALL: &[&str] = &["C04", "C05", "C15", "TOY"];
+pub const ALL: &[&str] = &["C04", "C05", "C11", "C15", "TOY"];
 
 pub fn registry(id: &str) -> Box<dyn Driver> {
     match id {
         "C04" => c04::driver(),
         "C05" => c05::driver(),
+        "C11" => c11::driver(),
         "C15" => c15::driver(),
         "TOY" => toy::driver(),
         _ => panic!("MACHINERY: unknown property id {id}"),
